@@ -592,7 +592,7 @@ func Main() {
 		}
 		p.Close()
 	}
-	pl := &c05.Plan{Faces: faces, Skew: sk, Batches: run.Pick(4, 60), PerTask: run.Pick(75, 75),
+	pl := &c05.Plan{Faces: faces, Skew: sk, Batches: run.Pick(8, 60), PerTask: run.Pick(75, 75),
 		PairItems: c05.PairSweepItems(), SweepFaces: c05.PairSweepFaces(faces)}
 	if err := c05.SavePlan(planPath, pl); err != nil {
 		fmt.Fprintln(os.Stderr, "plan:", err)
